@@ -110,6 +110,9 @@ class TravBase(Check):
         for _ in range(600 if quick else 20000):
             links = [rng.choice(opts3) for _ in range(3 if quick else 4)]
             yield self.one(real, rng, 3, links, full=False)
+        # worlds reached by arbitrary histories (members removed again, ends reassigned, …)
+        for _ in range(250 if quick else 6000):
+            yield self.history_world(real, rng, quick)
         # random larger multigraphs
         for _ in range(150 if quick else 4000):
             nv = rng.randint(2, 7)
@@ -123,6 +126,53 @@ class TravBase(Check):
                     b = None
                 links.append((k, a, b))
             yield self.one(real, rng, nv, links, full=False, sample=60)
+
+    def history_world(self, real, rng, quick):
+        """a world reached by an arbitrary history of structure / membership / law operations
+        (vertices leave universes again, ends are reassigned, links are unlinked …), then queried"""
+        import gen
+        from props_struct import all_ops
+
+        def clean_ops(p):
+            """well-formed graphs only (so that traversals return rather than raise), but with
+            every kind of later change: ends reassigned, links removed, members removed again"""
+            vs = p.verts()
+            for a in vs:
+                for b in vs:
+                    for c in self.kinds:
+                        yield "edge %s %s %s" % (c, a, b)
+                    yield "unlink %s %s destroy" % (a, b)
+                    yield "linkft %s D %s 1" % (a, b)
+            for l in p.two:
+                for x in vs:
+                    yield "setv1 L%d %s" % (l, x)
+                    yield "setv2 L%d %s" % (l, x)
+            for _ in range(3):
+                yield from gen.uni_ops(p)
+        opsfn = all_ops if rng.random() < 0.3 else clean_ops
+        lines, outs = gen.random_history(rng, real, opsfn, rng.randint(4, 25), audit=())
+        p = gen.Pool()
+        for l, o in zip(lines, outs):
+            p = p.after(l, o)
+        unis = ["-"] + p.universes()
+        vs = p.verts()
+        qs = []
+        if self.searches:
+            for v in vs:
+                for u in unis:
+                    for t in ("bfs", "dfsr", "dfsi"):
+                        qs.append("%s %s %s 0 %d" % (t, u, v, rng.choice([0, 1, 5])))
+        for v in vs:
+            for u in unis:
+                for (d, k) in [(0, 0), (0, 1), (1, 1), (2, 0), (0, 2)]:
+                    for t in ("bft", "dftr", "dfti"):
+                        qs.append("%s %s %s %d %d - - %s" % (t, u, v, d, k, rng.choice(["list", "list", "gen"])))
+        if len(qs) > 80:
+            qs = rng.sample(qs, 80)
+        if rng.random() < 0.3:
+            qs = ["flag on"] + qs
+        more = [real.step(q) for q in qs]
+        return lines + qs, outs + more
 
     def one(self, real, rng, nv, links, full, sample=None):
         attrs, classes = {}, {}
